@@ -77,19 +77,21 @@ fn intersection_impl(a1: Coord<R>, a2: Coord<R>, b1: Coord<R>, b2: Coord<R>) -> 
     //@     fin_pt(a1), fin_pt(a2), fin_pt(b1), fin_pt(b2), fin_pt(vsub(a2, a1)), fin_pt(vsub(b2, b1)),
     //@ ensures
     //@     // C04, contract-step: an intersection that the computed parameters place at an END POINT of a segment is
-    //@     // reported AS that end point (== as floats), not as a recomputed approximation of it
-    //@     crossing(a1, a2, b1, b2) && feq(k_s(a1, a2, b1, b2), fzero())
-    //@         ==> res is Point && feq_pt(res->Point_0, a1),
-    //@     crossing(a1, a2, b1, b2) && feq(k_s(a1, a2, b1, b2), fone())
-    //@         ==> res is Point && res->Point_0 == (Coord { x: fadd(a1.x, fsub(a2.x, a1.x)), y: fadd(a1.y, fsub(a2.y, a1.y)) }),
-    //@     crossing(a1, a2, b1, b2) && !feq(k_s(a1, a2, b1, b2), fzero()) && !feq(k_s(a1, a2, b1, b2), fone()) && feq(k_t(a1, a2, b1, b2), fzero())
-    //@         ==> res is Point && feq_pt(res->Point_0, b1),
-    //@     crossing(a1, a2, b1, b2) && !feq(k_s(a1, a2, b1, b2), fzero()) && !feq(k_s(a1, a2, b1, b2), fone()) && feq(k_t(a1, a2, b1, b2), fone())
-    //@         ==> res is Point && res->Point_0 == (Coord { x: fadd(b1.x, fsub(b2.x, b1.x)), y: fadd(b1.y, fsub(b2.y, b1.y)) }),
-    //@     // every other crossing is located on the FIRST segment, at its computed parameter
-    //@     crossing(a1, a2, b1, b2) && !feq(k_s(a1, a2, b1, b2), fzero()) && !feq(k_s(a1, a2, b1, b2), fone())
-    //@         && !feq(k_t(a1, a2, b1, b2), fzero()) && !feq(k_t(a1, a2, b1, b2), fone())
-    //@         ==> res is Point && res->Point_0 == mid(a1, k_s(a1, a2, b1, b2), vsub(a2, a1)),
+    //@     // reported AS such an end point (== as floats for parameter 0, the single expression p1 + (p2 - p1) for
+    //@     // parameter 1), not as a recomputed approximation of it.  Which of several coinciding end points is
+    //@     // reported is left open: the property does not say.
+    //@     crossing(a1, a2, b1, b2) ==> res is Point,
+    //@     crossing(a1, a2, b1, b2) && at_endpoint(a1, a2, b1, b2) ==> {
+    //@         ||| feq(k_s(a1, a2, b1, b2), fzero()) && feq_pt(res->Point_0, a1)
+    //@         ||| feq(k_s(a1, a2, b1, b2), fone()) && res->Point_0 == end_of(a1, a2)
+    //@         ||| feq(k_t(a1, a2, b1, b2), fzero()) && feq_pt(res->Point_0, b1)
+    //@         ||| feq(k_t(a1, a2, b1, b2), fone()) && res->Point_0 == end_of(b1, b2)
+    //@     },
+    //@     // every other crossing is located on one of the segments at its computed parameter
+    //@     crossing(a1, a2, b1, b2) && !at_endpoint(a1, a2, b1, b2) ==> {
+    //@         ||| res->Point_0 == mid(a1, k_s(a1, a2, b1, b2), vsub(a2, a1))
+    //@         ||| res->Point_0 == mid(b1, k_t(a1, a2, b1, b2), vsub(b2, b1))
+    //@     },
     //@     // the range test: a parameter outside [0, 1] means no intersection
     //@     flt(fzero(), fmul(k_kross(a1, a2, b1, b2), k_kross(a1, a2, b1, b2))) && !(in_unit(k_s(a1, a2, b1, b2)) && in_unit(k_t(a1, a2, b1, b2)))
     //@         ==> res is None,
@@ -120,16 +122,20 @@ fn intersection_impl(a1: Coord<R>, a2: Coord<R>, b1: Coord<R>, b2: Coord<R>) -> 
         }
         let t = cross_product(e, va) / kross;
         //@ proof { ax_lt_asym(fone(), t); ax_lt_asym(t, fone()); }
+        //@ proof {
+        //@     if feq(s, fzero()) { lemma_mid_at_zero(a1, s, va); }
+        //@     if feq(s, fone()) { lemma_mid_at_one(a1, s, va); }
+        //@     if feq(t, fzero()) { lemma_mid_at_zero(b1, t, vb); }
+        //@     if feq(t, fone()) { lemma_mid_at_one(b1, t, vb); }
+        //@ }
         if t < R::zero() || t > R::one() {
             return LineIntersection::None;
         }
 
         if s == R::zero() || s == R::one() {
-            //@ proof { if feq(s, fzero()) { lemma_mid_at_zero(a1, s, va); } if feq(s, fone()) { lemma_mid_at_one(a1, s, va); } }
             return LineIntersection::Point(mid_point(a1, s, va));
         }
         if t == R::zero() || t == R::one() {
-            //@ proof { if feq(t, fzero()) { lemma_mid_at_zero(b1, t, vb); } if feq(t, fone()) { lemma_mid_at_one(b1, t, vb); } }
             return LineIntersection::Point(mid_point(b1, t, vb));
         }
 
